@@ -753,9 +753,48 @@ func c01LongJob() Job {
 	}}
 }
 
+// c01TargetsJob: what Target() and Public() make of every kind of first parameter: the four channel prefixes
+// (# & + !), STATUSMSG-style prefixes before a channel, parameters consisting of prefix characters only, plain
+// nicks; for PRIVMSG / NOTICE and their CTCP forms, with and without a nick!user@host source.
+func c01TargetsJob() Job {
+	name := "c01/targets"
+	return Job{Name: name, Cost: 1, Run: func(jc *JobCtx) *JobResult {
+		e := NewEnum(name)
+		fb := newFailBook(e)
+		targets := []string{"#c", "&c", "+c", "!c", "#", "&", "+", "!", "+modeless", "!ABCDEchan", "##", "#+c", "+#c", "@#c", "%#c", "~#c", "@+#c",
+			"@", "%", "~", "~@%", "@%+", "x", "me", "a#b", "c+", "0", "[x]", "\\x", "#c,#d", "x,#c"}
+		type body struct{ trail, ctcpVerb, ctcpText string }
+		trails := []body{{trail: "hello there"}, {trail: ""}, {ctcpVerb: "ACTION", ctcpText: "waves"}, {ctcpVerb: "VERSION"}, {ctcpVerb: "PING", ctcpText: "1 2"}}
+		srcs := []MSrc{{Kind: "nuh", Nick: "n", User: "u", Host: "h.example"}, {Kind: "server", Name: "irc.example.org"}, {}}
+		var batch []c01Item
+		for _, verb := range []string{"PRIVMSG", "NOTICE", "privmsg", "Notice"} {
+			for _, tg := range targets {
+				for _, tr := range trails {
+					for _, src := range srcs {
+						m := Msg{Src: src, Verb: verb, Mid: []string{tg}, Sep: []int{1}, HasTrail: true, Trail: tr.trail, CtcpVerb: tr.ctcpVerb, CtcpText: tr.ctcpText}
+						exp := m.Expect()
+						l, crash := SafeParse(exp.Raw)
+						e.Case(exp.Raw)
+						for _, f := range c01Judge(l, crash, exp) {
+							fb.Fail("parse-direct", f.Oracle, f.Class, Q(exp.Raw), f.Msg, nil)
+						}
+						if l != nil && src.Kind == "nuh" && verb == "PRIVMSG" {
+							batch = append(batch, c01Item{m, exp.Raw, l})
+						}
+					}
+				}
+			}
+		}
+		c01CheckBatch(fb, batch)
+		e.Sample(map[string]interface{}{"targets": len(targets), "also_sent_through_a_connection": len(batch)})
+		fb.Flush()
+		return e.Done()
+	}}
+}
+
 func c01Jobs(tier string) []Job {
 	var jobs []Job
-	jobs = append(jobs, c01LongJob())
+	jobs = append(jobs, c01LongJob(), c01TargetsJob())
 	add := func(sp *c01Space) {
 		sp.phase = len(jobs) * 7
 		jobs = append(jobs, Job{Name: sp.name, Cost: sp.size() / 1000, Run: c01Run(sp)})
